@@ -2,10 +2,17 @@
 
 use crate::{json::J, verdict::Tier};
 
+pub mod c03;
+pub mod c04;
+pub mod c04_create;
+pub mod c05;
 pub mod c19;
 
 pub fn run(id: &str, tier: Tier) -> i32 {
     match id {
+        "C03" => c03::run(tier),
+        "C04" => c04::run(tier),
+        "C05" => c05::run(tier),
         "C19" => c19::run(tier),
         _ => {
             eprintln!("unknown property '{id}'");
@@ -18,6 +25,9 @@ pub fn run(id: &str, tier: Tier) -> i32 {
 pub fn replay(id: &str, j: &J) -> i32 {
     let case = j.get("case").cloned().unwrap_or(J::Null);
     let res: Option<Vec<String>> = match id {
+        "C03" => c03::replay(&case),
+        "C04" => c04::replay(&case),
+        "C05" => c05::replay(&case),
         "C19" => c19::replay(&case),
         _ => None,
     };
